@@ -24,7 +24,7 @@ func init() {
 			StatesMean:  "distinct generated lines / option groups; transitions = real Next calls",
 			Assumptions: []string{"unescaped [ and ] are markup (C13) and are not generated", "surrounding whitespace includes the Unicode spaces U+3000 and U+00A0 (they are stripped like ASCII spaces)", "number display compared only where the property fixes it (magnitude in [1e-4,1e15) or zero)", "canonical layout: a line cannot start with whitespace"},
 		},
-		QuickBudget: 70 * time.Second, ThoroughBudget: 14 * time.Minute, CrashIsViolation: true,
+		QuickBudget: 180 * time.Second, ThoroughBudget: 14 * time.Minute, CrashIsViolation: true,
 		Run: runC04,
 	})
 }
